@@ -81,7 +81,7 @@ def iter_cases(task):
                     k += 1
                     plain = bool(plain_every) and (k % plain_every == 0)
                     if plain or shared is None or (r % 2 == 1 and k % 2 == 0):
-                        m = ws.member(label, n, rnd, orb[label], plain_graph=plain)
+                        m = ws.member(label, n, rnd, orb[label], plain_graph=plain, style=ws.STYLES[(k + r) % len(ws.STYLES)])
                         if not plain:
                             m["gens"] = ws.hostile_presentation(m["gens"], n, rnd, HOSTILE[k % len(HOSTILE)])
                             shared = m
